@@ -212,7 +212,56 @@ def run_big(spec):
     return res
 
 
-out = {"results": [], "big": []}
+class _Bar:
+    def set_description(self, *a, **k):
+        pass
+
+
+def run_pipeline(case):
+    """The sketch as the ranking pipeline feeds it: core_ranking.compute_cardinalities over mini-batches.  The class the
+    pipeline instantiates is wrapped so that the fresh instance gets small p / m / warmup_size / width."""
+    import pandas as pd
+    import outrank.core_ranking as cr
+    from outrank.core_utils import internal_hash
+    p, W = case["p"], case["W"]
+    real = cr.HyperLogLog
+
+    def factory(*a, **k):
+        h = real(*a, **k)
+        h.p, h.m, h.warmup_size, h.width = p, 1 << p, W, 64 - p
+        return h
+    cr.GLOBAL_CARDINALITY_STORAGE.clear()
+    cr.GLOBAL_COUNTS_STORAGE.clear()
+    cr.HyperLogLog = factory
+    obs, final, err = [], {}, None
+    digest = {}
+    try:
+        for batch in case["batches"]:
+            for vals in batch.values():
+                for v in vals:
+                    d = internal_hash(str(v))
+                    digest[str(v)] = [d, xxhash.xxh32(d.encode("utf-8"), seed=p).intdigest()]
+            df = pd.DataFrame(batch)
+            cr.compute_cardinalities(df, _Bar(), 10 ** 6)
+            obs.append({col: [length(cr.GLOBAL_CARDINALITY_STORAGE[col]), bool(cr.GLOBAL_CARDINALITY_STORAGE[col].hll_flag)]
+                        for col in df.columns})
+        for col, h in cr.GLOBAL_CARDINALITY_STORAGE.items():
+            if h.hll_flag:
+                final[col] = {"cold": True, "regs": [int(x) for x in np.asarray(h.M).tolist()]}
+            else:
+                final[col] = {"cold": False, "set": sorted(h.warmup_set)}
+    except Exception as e:
+        err = "%s: %s" % (type(e).__name__, e)
+    finally:
+        cr.HyperLogLog = real
+        cr.GLOBAL_CARDINALITY_STORAGE.clear()
+        cr.GLOBAL_COUNTS_STORAGE.clear()
+    return {"ok": err is None, "error": err, "obs": obs, "final": final, "digest": digest}
+
+
+out = {"results": [], "big": [], "pipeline": []}
+for c in payload.get("pipeline", []):
+    out["pipeline"].append(run_pipeline(c))
 for c in payload.get("cases", []):
     out["results"].append(run_small(c))
 for s in payload.get("big", []):
